@@ -562,6 +562,20 @@ func aperDecDomain(e *emitter) {
 			}
 		}
 	}
+	// PRIVATE MESSAGE (procedure code 31): the one place of the schema with an OBJECT IDENTIFIER (the global alternative of
+	// PrivateIE-ID); no value of it can be generated by encoding, so its inputs are written out: local and global ids, object
+	// identifiers of 0..4 contents octets, whole and cut short
+	for _, idb := range []byte{0x00, 0x40, 0x80, 0xc0} {
+		for oidLen := 0; oidLen <= 4; oidLen++ {
+			ie := append([]byte{idb, byte(oidLen)}, []byte{0x2a, 0x03, 0x04, 0x05}[:oidLen]...)
+			ie = append(ie, 0x00, 0x01, 0x00)
+			body := append([]byte{0x00, 0x00, 0x01}, ie...)
+			msg := append([]byte{0x00, 0x1f, 0x40, byte(len(body))}, body...)
+			e.op("ngapdec", hx(msg))
+			e.op("ngapdec", hx(msg[:len(msg)-3]))
+			e.op("ngapdec", hx(append([]byte{0x00, 0x1f, 0x40, byte(len(body) - 3)}, body[:len(body)-3]...)))
+		}
+	}
 	// random strings
 	for i := 0; i < e.n/2; i++ {
 		b := e.bytes(e.rng.Intn(64))
